@@ -940,6 +940,20 @@ def probes(rng, tier):
     return out
 
 
-LEVEL_TEXT = 'in progress'
-LEVEL_NOTE = 'in progress'
-TECHNIQUE = 'Coq proof over an abstract commutative ring with involution + in-Coq differential correspondence via full matrices'
+LEVEL_TEXT = ('Proof: Coq proves, over an abstract commutative ring with involution instantiated at R and at C = R*R, that for '
+              'EVERY operator expression tree (sum, composition, scalar multiples on either side, vector multiples on either '
+              'side, functional-times-vector, Broadcast/Reduction/Diagonal blocks; any depth and width) the expression the '
+              'library returns as .adjoint (mirrored incl. Python operator dispatch and scalar merging) maps range to '
+              'domain and satisfies <Ax,y>_ran = <x,A*y>_dom in the weighted inner products whenever the leaves do, and that '
+              'A.adjoint.adjoint acts like A (uniqueness of adjoints). Leaf theorems for all sizes/index lists/weights: '
+              'Scaling, Multiply, InnerProduct, field-Multiply, Zero (any weights); Matrix, Sampling, WeightedSumSampling, '
+              'Flattening (+inverse), ComponentProjection(+Adjoint), 1-d PartialDerivative for all 30 method/padding pairs '
+              '(via C13) under the exact weighting precondition -- and the full statements are REFUTED by witnesses on '
+              'non-uniformly weighted spaces (8 recorded findings). The model is tied to the code by an in-Coq '
+              'correspondence on full bases (forward, adjoint, double adjoint, spaces, and the identity verdict).')
+LEVEL_NOTE = ('Validated, not proved: PointwiseInner(Adjoint), Gradient/Divergence/Laplacian and N-d PartialDerivative, '
+              'RealPart/ImagPart/ComplexEmbedding (modelled + correspondence + probes); ResizingOperator, N-d/sparse '
+              'MatrixOperator, DFT (probes only). Trusted: the encoder reading the operator object graph, exact-arithmetic '
+              'idealisation (dyadic inputs), Gram diagonals read from the implementation (C02). The generic theorems are '
+              'closed under the global context; instances at R use the classical-reals axioms printed.')
+TECHNIQUE = 'Coq proof by structural induction over a deep embedding of operator arithmetic (abstract ring with involution) + in-Coq differential correspondence via full matrices'
